@@ -123,6 +123,7 @@ int harness_main(void) {
   fmc_focus(&L, sizeof L);
   fmc_focus((void*)&data, sizeof data);
   int nf = 0;
+  rt_pin_begin();
   fmc_begin();
   int gen = fmc_param("gen", 0);
   if (gen) {
@@ -145,6 +146,7 @@ int harness_main(void) {
   int order[8];
   rt_creation_order(nf - late, order);
   for (int i = 0; i < nf - late; i++) f[order[i]] = rt_create(order[i], STK, body, (void*)(intptr_t)order[i]);
+  rt_pin_end();
   fmc_yield();
   for (int i = 0; i < nf; i++) {
     if (!get_f(i)) fmc_fail("rwlock harness: fiber %d was not created before fiber %d finished (script error)", i, i - 1);
